@@ -2,6 +2,7 @@ import ConjureVerif.Lemmas.UriReq
 import ConjureVerif.Lemmas.MacroEmit
 import ConjureVerif.Gen.MacroClientSrc
 import ConjureVerif.Gen.MacroPathSrc
+import ConjureVerif.Gen.MacroEndpointsSrc
 import ConjureVerif.Gen.Uri
 /-
 C07 — Parameter values cannot alter the request URI structure and decode back exactly.
@@ -356,6 +357,29 @@ theorem C07_macro_pairs (tbl : List Nat) (g : Good tbl) (tmpl : List Comp) (path
       parseQuery q = queryArgs.flatMap (fun a => (vals a.slot).map (fun v => (a.name, v))) := by
   obtain ⟨hb, wf⟩ := C07_macro_request tbl g tmpl pathArgs queryArgs vals cs h hl hv hk
   rw [hb]; exact (C07_pairs tbl g _ wf).2 hq
+
+/-- what `#[conjure_endpoints]` derives for a path and a query argument: the key it looks the value up under is the
+declared name (for a path argument without one, its identifier), never a name meant for logs and never an escaped form -/
+theorem gen_macro_server_sources :
+    Gen.MacroEndpointsSrc.hashes.lookup "fn generate_path_arg" = some 10877479656661404801 /- "{letname=&arg.ident;letparam=match&arg.params.name{Some(name)=>name.value(),None=>arg.ident.to_string(),};letlog_as=arg.log_as();letdecoder=arg.params.decoder.as_ref().map_or_else(||quote!(conjure_http::server::FromStrDecoder),|d|quote!(#d),);quote!{let#name=conjure_http::private::path_param::<_,#decoder>(&self.runtime,&#parts,#param,#log_as,)?;}}" -/ ∧
+    Gen.MacroEndpointsSrc.hashes.lookup "fn generate_query_arg" = some 13113819969034372553 /- "{letname=&arg.ident;letkey=&arg.params.name;letlog_as=arg.log_as();letdecoder=arg.params.decoder.as_ref().map_or_else(||quote!(conjure_http::server::FromStrDecoder),|d|quote!(#d),);quote!{let#name=conjure_http::private::query_param::<_,#decoder>(&self.runtime,&#query_params,#key,#log_as,)?;}}" -/ := by decide +kernel
+
+/-- **the derived server reads what the derived client wrote**: for every template, every assignment of arguments with
+distinct query keys and every list of texts, the values the derived server finds under a query argument's declared
+key in the URI the derived client built are exactly the texts supplied for it, in order — whatever bytes keys and
+texts hold -/
+theorem C07_macro_server_reads (tbl : List Nat) (g : Good tbl) (tmpl : List Comp) (pathArgs queryArgs : List MArg)
+    (vals : Nat → List (List Nat)) (cs : List MCall) (h : writes tbl tmpl pathArgs queryArgs = some cs)
+    (hl : ∀ l, Comp.lit l ∈ tmpl → Bytes l) (hv : ∀ i, ∀ v ∈ vals i, Bytes v) (hk : ∀ a ∈ queryArgs, Bytes a.name)
+    (hd : (queryArgs.map (·.name)).Nodup)
+    (hq : queryArgs.flatMap (fun a => (vals a.slot).map (fun v => (a.name, v))) ≠ []) :
+    ∃ q, queryOf (buildBuf tbl (pushes vals cs)) = some q ∧
+      ∀ a ∈ queryArgs, serverQueryValues (parseQuery q) a.name = vals a.slot := by
+  obtain ⟨q, h1, h2⟩ := C07_macro_pairs tbl g tmpl pathArgs queryArgs vals cs h hl hv hk hq
+  refine ⟨q, h1, ?_⟩
+  intro a ha
+  rw [h2]
+  exact serverQueryValues_flatMap vals queryArgs a ha hd
 
 /-- **the template is read as written**: the components `parse` returns print back to the template, none of them
     holds a `/`, and the derivation succeeds exactly when every `{name}` names a path argument -/
